@@ -70,6 +70,7 @@ def cvc5_check(solver, extra):
 
 class Ctx:
     """one symbolic execution path"""
+    cvc5_calls = 0      # per process (one unit run): the second-opinion solver is tried on the first few unknowns only
 
     def __init__(self, prefix=(), assert_on=True, concrete=False):
         self.solver = z3.Solver()
@@ -221,7 +222,8 @@ class Ctx:
         t0 = time.time()
         r = self._check(z3.Not(g))
         solver = 'z3'
-        if r == z3.unknown:
+        if r == z3.unknown and Ctx.cvc5_calls < 6:
+            Ctx.cvc5_calls += 1
             r2 = cvc5_check(self.solver, [lits_distinct(), z3.Not(g)])
             solver = 'cvc5'
             if r2 == 'unsat':
